@@ -1010,10 +1010,16 @@ def native_session_search(v):
     for L in (1, 2, 3):
         for combo in itertools.product(range(len(SEARCH_VALUES)), repeat=L):
             hist.append(combo)
-    for combo in hist:
+    # ... and, for a key event, words given up before it: erased key by key, erased at once, committed, finished (the context is idle again)
+    endings = [()]
+    if ev["op"] == "key":
+        endings += [("backspace",) * 4, ("ctrl_backspace",), ("commit",), ("finish",), ("backspace",)]
+    for combo, ending in [(c_, e_) for e_ in endings for c_ in hist if not e_ or 1 <= len(c_) <= 2]:
         steps = [{"op": "new", "config": {"layout_json": lay, "database": REPO_DATA, "opts": opts}}]
         for k in combo:
             steps.append({"op": "key", "key": PLANT_KEYS[k], "mod": 0, "sel": 0})
+        for e_ in ending:
+            steps.append({"op": "backspace", "ctrl": e_ == "ctrl_backspace"} if "backspace" in e_ else ({"op": "commit", "index": 0} if e_ == "commit" else {"op": "finish"}))
         # drive to the end with the counterexample's event, repeated for backspace
         reps = 4 if ev["op"] == "backspace" else 1
         steps.append({"op": "get_state"})
@@ -1053,6 +1059,11 @@ def native_session_search(v):
                 bad = True
             if clause == "nonempty_return_means_ongoing" and empty is False and not x.get("ongoing"):
                 bad = True
+            if clause == "stale_scratch_candidates_not_observable" and fresh and empty is False:
+                bad = True      # nothing is being composed, yet something is shown: it can only come from a word given up earlier
+            if (clause == "key_without_value_changes_nothing" and ev["op"] == "key" and before
+                    and any(st.get(k_) != before.get(k_) for k_ in ("buffer", "typed", "pending"))):
+                bad = True
             if clause == "session_invariant_preserved" and st.get("buffer") == "" and st.get("pending") is None and st.get("typed") != "":
                 bad = True
             if clause in ("list_not_empty", "preselection_inside_list") and sug and sug.get("kind") == "full" and (sug["len"] == 0 or sug["sel"] >= sug["len"]):
@@ -1072,9 +1083,9 @@ def native_session_search(v):
                     and before.get("buffer") and st.get("buffer") != before.get("buffer")[:-1]):
                 bad = True
             if bad:
-                keys = [SEARCH_VALUES[PLANT_KEYS.index(s["key"])] if s["key"] in PLANT_KEYS else lay.get("Key_a_Normal")
-                        for s in sc["steps"][1:] if s.get("op") == "key"]
-                what = "after typing layout values %s and %s the state is %s (returned empty=%s, session flag %s): %s" % (
+                keys = [(SEARCH_VALUES[PLANT_KEYS.index(s["key"])] if s["key"] in PLANT_KEYS else lay.get("Key_a_Normal")) if s.get("op") == "key" else
+                        ("<Ctrl+BackSpace>" if s.get("ctrl") else "<%s>" % s["op"]) for s in sc["steps"][1:i] if s.get("op") != "get_state"]
+                what = "after the events %s (layout values typed) and %s the state is %s (returned empty=%s, session flag %s): %s" % (
                     keys, json.dumps(ev), json.dumps(st, ensure_ascii=False), empty, x.get("ongoing"), clause)
                 return sc, rr[i:i + 2], what
     return None
